@@ -26,6 +26,7 @@ import (
 	"github.com/deadsy/sdfx/sdf"
 	v2 "github.com/deadsy/sdfx/vec/v2"
 	v3 "github.com/deadsy/sdfx/vec/v3"
+	"github.com/deadsy/sdfx/verifrt/vatomic"
 	"github.com/deadsy/sdfx/verifrt/vsync"
 
 	"verif/lib/c10sub"
@@ -144,6 +145,9 @@ func main() {
 	}
 	units = append(units, unit{"render", 0, 2}, unit{"render", 1, 2}, unit{"render", 2, 2}, unit{"render", 3, 3}, unit{"dcache3", 0, 2}, unit{"dcache2", 0, 2})
 	// a cache with a long single-threaded history before the concurrent calls (round 8): sub = lookups already made
+	// the atomic model of the rewriter exercised on its own (round 9): counters incremented by Add and by a
+	// compare-and-swap loop from two threads, every interleaving
+	units = append(units, unit{"atomic-selfcheck", 0, 2})
 	for _, h := range vlib.Pick(c, []int{1022, 4094}, []int{254, 1022, 4094, 16382}) {
 		units = append(units, unit{"cache-history", h, 2})
 	}
@@ -276,6 +280,31 @@ func main() {
 						prof = sdf.Cache2D(c2)
 					}
 					render.ToTriangles(sdf.Extrude3D(prof, 1), render.NewMarchingCubesUniform(3))
+				}
+			case "atomic-selfcheck":
+				name = "rt/vatomic: Add and a CompareAndSwap loop from two threads"
+				body = func() {
+					mismatch = ""
+					var a vatomic.Int32
+					var b int64
+					var wg vsync.WaitGroup
+					for t := 0; t < u.threads; t++ {
+						wg.Add(1)
+						vsync.Go(func() {
+							defer wg.Done()
+							a.Add(1)
+							for {
+								o := vatomic.LoadInt64(&b)
+								if vatomic.CompareAndSwapInt64(&b, o, o+2) {
+									break
+								}
+							}
+						})
+					}
+					wg.Wait()
+					if a.Load() != int32(u.threads) || vatomic.LoadInt64(&b) != int64(2*u.threads) {
+						mismatch = fmt.Sprintf("counters %d and %d after %d threads", a.Load(), vatomic.LoadInt64(&b), u.threads)
+					}
 				}
 			case "cache-history":
 				name = fmt.Sprintf("Cache2D after %d sequential lookups of distinct points", u.sub)
